@@ -28,8 +28,8 @@ def run_case(case, props=None, verbose=False):
                 shutil.copytree(s, os.path.join(d, x))
             elif os.path.exists(s):
                 shutil.copy(s, os.path.join(d, x))
-        if case.get('patch'):
-            r = subprocess.run(['patch', '-p1', '-s', '-d', d, '-i', os.path.join(HERE, 'selftest', 'cases', case['patch'])],
+        if case.get('patch') or case.get('patch_abs'):
+            r = subprocess.run(['patch', '-p1', '-s', '-d', d, '-i', case.get('patch_abs') or os.path.join(HERE, 'selftest', 'cases', case['patch'])],
                                stdout=subprocess.PIPE, stderr=subprocess.STDOUT, text=True)
             if r.returncode != 0:
                 return False, 'patch does not apply: ' + r.stdout[-300:]
@@ -78,12 +78,29 @@ def run_case(case, props=None, verbose=False):
         shutil.rmtree(d, ignore_errors=True)
 
 
-def load_cases():
+def load_cases(seeded=True):
     cases = []
     for f in sorted(glob.glob(os.path.join(HERE, 'selftest', 'cases', '*.json'))):
         c = json.load(open(f))
         c['name'] = os.path.basename(f)[:-5]
         cases.append(c)
+    if seeded:
+        # the variants written by independent agents (seeded/): property-breaking ones must be reported by the checks recorded in
+        # their meta.json, behaviour-preserving ones (seeded/refactors) must stay silent
+        for f in sorted(glob.glob(os.path.join(HERE, 'seeded', 'C*', 'patch.diff'))):
+            d = os.path.dirname(f)
+            name = os.path.basename(d)
+            try:
+                meta = json.load(open(os.path.join(d, 'meta.json')))
+            except (OSError, ValueError):
+                meta = {}
+            own = name.split('-')[0]
+            by = sorted((meta.get('caught_by') or {}).keys())
+            expect = {own: []} if (own in by or not by) else {by[0]: []}
+            cases.append({'kind': 'mutant', 'name': 'seeded_' + name, 'patch_abs': f, 'expect': expect, 'for': own})
+        for f in sorted(glob.glob(os.path.join(HERE, 'seeded', 'refactors', '*', 'patch.diff'))):
+            name = os.path.basename(os.path.dirname(f))
+            cases.append({'kind': 'refactor', 'name': 'seeded_' + name, 'patch_abs': f, 'for': name.split('-')[0]})
     return cases
 
 
@@ -98,7 +115,7 @@ def main():
         props = args[args.index('--props') + 1].split(',')
     ok = True
     n = 0
-    for c in load_cases():
+    for c in load_cases(seeded='--seeded' in args):
         if only and only not in c['name']:
             continue
         if props and c['kind'] == 'mutant' and not (set(props) & set(c.get('expect', {}))):
